@@ -45,6 +45,9 @@ func (m *yamlUnmarshaler) Unmarshal(data []byte, message proto.Message) error {
 		Resolver:  m.resolver,
 		Validator: m.validator,
 		Path:      m.path,
+		// Same as the JSON (by default) and txtpb unmarshalers. This is required to read
+		// an image with custom options: the first pass has no resolver for them yet.
+		DiscardUnknown: true,
 	}
 	if err := options.Unmarshal(data, message); err != nil {
 		return fmt.Errorf("yaml unmarshal: %w", err)
